@@ -1,5 +1,235 @@
-//! 12.48in driver runs (own SPI bus, four chip selects).
-use crate::Case;
-pub fn run_case(c: &Case, _full: bool, out: &mut String) {
-    out.push_str(&format!("case {}\nend\n", c.id));
+//! 12.48in driver runs (own SPI bus, four chip selects, two D/C, two resets, four busy inputs).
+//!
+//! Case header: `case <id> panel=epd12in48b_v2 delay=none busy=m:<M1>/<S1>/<M2>/<S2> fault=<none|op:k>
+//! scribble=<0|1>`; k counts the SpiBus::write calls of that op (0-based).
+//! Trace lines: `N <pin> <0|1>` output pin, `PN <pin> L|H <ans>` input poll, `W <n> <h1> <h2> [hex]`
+//! one successful SpiBus::write, `WX <n>` a failed one, `S flush 0`, `S read <n>`, `T n|u|m <x>`.
+use crate::world::*;
+use crate::{Arena, Case};
+use epd_waveshare::epd12in48b_v2::{BorderLUT, Config, EpdDriver, Peripherals, Rect};
+use std::cell::RefCell;
+use std::panic::{catch_unwind, AssertUnwindSafe};
+use std::rc::Rc;
+
+type Drv = EpdDriver<In, Out, Bus, Delay>;
+
+fn make(w: &W) -> Drv {
+    EpdDriver::new(
+        Peripherals {
+            spi: Bus(w.clone()),
+            m1_cs: Out(w.clone(), "m1_cs"),
+            s1_cs: Out(w.clone(), "s1_cs"),
+            m2_cs: Out(w.clone(), "m2_cs"),
+            s2_cs: Out(w.clone(), "s2_cs"),
+            m1s1_dc: Out(w.clone(), "m1s1_dc"),
+            m2s2_dc: Out(w.clone(), "m2s2_dc"),
+            m1s1_rst: Out(w.clone(), "m1s1_rst"),
+            m2s2_rst: Out(w.clone(), "m2s2_rst"),
+            m1_busy: In(w.clone(), "m1_busy"),
+            s1_busy: In(w.clone(), "s1_busy"),
+            m2_busy: In(w.clone(), "m2_busy"),
+            s2_busy: In(w.clone(), "s2_busy"),
+        },
+        Delay(w.clone()),
+    )
+}
+
+/// `m:<bitsM1>/<bitsS1>/<bitsM2>/<bitsS2>` (1 = high = ready)
+fn parse_busy(s: &str) -> Busy {
+    let rest = s.strip_prefix("m:").expect("busy spec m:a/b/c/d");
+    let parts: Vec<&str> = rest.split('/').collect();
+    assert!(parts.len() == 4, "busy spec m:a/b/c/d");
+    let names = ["m1_busy", "s1_busy", "m2_busy", "s2_busy"];
+    Busy::Multi(
+        names
+            .iter()
+            .zip(parts.iter())
+            .map(|(n, bits)| (*n, bits.chars().map(|c| c == '1').collect(), 0usize))
+            .collect(),
+    )
+}
+
+fn print_events(out: &mut String, evs: &[Ev], full: bool) {
+    for e in evs {
+        match e {
+            Ev::Pin(name, lvl) => out.push_str(&format!("N {} {}\n", name, if *lvl { 1 } else { 0 })),
+            Ev::Xfer(bytes, true) => {
+                let (h1, h2) = hash2(bytes);
+                out.push_str(&format!("W {} {} {}", bytes.len(), h1, h2));
+                if !bytes.is_empty() && (full || bytes.len() <= HEXMAX) {
+                    out.push(' ');
+                    out.push_str(&hex(bytes));
+                }
+                out.push('\n');
+            }
+            Ev::Xfer(bytes, false) => out.push_str(&format!("WX {}\n", bytes.len())),
+            Ev::SpiOther(what, n) => out.push_str(&format!("S {} {}\n", what, n)),
+            Ev::Poll(pin, low, ans) => out.push_str(&format!(
+                "PN {} {} {}\n",
+                pin,
+                if *low { "L" } else { "H" },
+                if *ans { 1 } else { 0 }
+            )),
+            Ev::Delay(u, n) => {
+                let c = match u {
+                    0 => "n",
+                    1 => "u",
+                    _ => "m",
+                };
+                out.push_str(&format!("T {} {}\n", c, n));
+            }
+        }
+    }
+}
+
+enum Res {
+    Ok(String),
+    Err,
+}
+
+fn r(x: Result<(), embedded_hal::spi::ErrorKind>) -> Res {
+    match x {
+        Ok(()) => Res::Ok(String::new()),
+        Err(_) => Res::Err,
+    }
+}
+
+fn n(s: &str) -> u32 {
+    s.parse().unwrap()
+}
+
+fn rect(t: &[String]) -> Rect {
+    Rect::new(n(&t[0]), n(&t[1]), n(&t[2]), n(&t[3]))
+}
+
+fn config(t: &[String]) -> Config {
+    Config {
+        inverted_kw: t[0] == "1",
+        inverted_r: t[1] == "1",
+        border_lut: match t[2].as_str() {
+            "bd" => BorderLUT::LUTBD,
+            "k" => BorderLUT::LUTK,
+            "w" => BorderLUT::LUTW,
+            "r" => BorderLUT::LUTR,
+            x => panic!("border {}", x),
+        },
+        external_lut: t[3] == "1",
+    }
+}
+
+fn op(d: &mut Drv, a: &mut Arena, t: &[String]) -> Res {
+    match t[0].as_str() {
+        "reset" => match d.reset() {
+            Ok(()) => Res::Ok(String::new()),
+            Err(_) => Res::Err,
+        },
+        "init" => r(d.init(&config(&t[1..5]))),
+        "set_mode" => r(d.set_mode(&config(&t[1..5]))),
+        "write_data1" => {
+            let b = a.get(&t[1]);
+            r(d.write_data1(b))
+        }
+        "write_data2" => {
+            let b = a.get(&t[1]);
+            r(d.write_data2(b))
+        }
+        "write_data1_partial" => {
+            let b = a.get(&t[1]);
+            r(d.write_data1_partial(rect(&t[2..6]), b))
+        }
+        "write_data2_partial" => {
+            let b = a.get(&t[1]);
+            r(d.write_data2_partial(rect(&t[2..6]), b))
+        }
+        "set_lutc" => {
+            let b = a.get(&t[1]);
+            r(d.set_lutc(b))
+        }
+        "set_lutww" => {
+            let b = a.get(&t[1]);
+            r(d.set_lutww(b))
+        }
+        "set_lutkw_lutr" => {
+            let b = a.get(&t[1]);
+            r(d.set_lutkw_lutr(b))
+        }
+        "set_lutwk_lutw" => {
+            let b = a.get(&t[1]);
+            r(d.set_lutwk_lutw(b))
+        }
+        "set_lutkk_lutk" => {
+            let b = a.get(&t[1]);
+            r(d.set_lutkk_lutk(b))
+        }
+        "set_lutbd" => {
+            let b = a.get(&t[1]);
+            r(d.set_lutbd(b))
+        }
+        "refresh_display" => r(d.refresh_display()),
+        "begin_refresh_display" => r(d.begin_refresh_display()),
+        "refresh_display_partial" => r(d.refresh_display_partial(rect(&t[1..5]))),
+        "begin_refresh_display_partial" => r(d.begin_refresh_display_partial(rect(&t[1..5]))),
+        "power_off" => r(d.power_off()),
+        "hibernate" => r(d.hibernate()),
+        "get_busy" => Res::Ok(format!("{}", d.get_busy())),
+        "is_busy" => Res::Ok(format!("{}", d.is_busy())),
+        "get_status" => match d.get_status() {
+            Ok(s) => Res::Ok(hex(&s)),
+            Err(_) => Res::Err,
+        },
+        x => panic!("unknown op {}", x),
+    }
+}
+
+pub fn run_case(c: &Case, full: bool, out: &mut String) {
+    let w: W = Rc::new(RefCell::new(World::new(parse_busy(&c.busy))));
+    let mut arena = Arena::new();
+    let mut drv: Option<Drv> = None;
+    out.push_str(&format!("case {}\n", c.id));
+    for (i, t) in c.ops.iter().enumerate() {
+        {
+            let mut wb = w.borrow_mut();
+            wb.ev.clear();
+            wb.xfers_in_op = 0;
+            wb.polls = 0;
+            wb.fault_at = match c.fault {
+                Some((oi, k)) if oi == i => Some(k),
+                _ => None,
+            };
+        }
+        let mut spun = false;
+        // Ok(None) = no driver constructed yet
+        let res: Result<Option<Res>, ()> = if t[0] == "new" {
+            drv = Some(make(&w));
+            Ok(Some(Res::Ok(String::new())))
+        } else if let Some(d) = drv.as_mut() {
+            catch_unwind(AssertUnwindSafe(|| op(d, &mut arena, t)))
+                .map(Some)
+                .map_err(|e| {
+                    spun = e.is::<Spin>();
+                })
+        } else {
+            Ok(None)
+        };
+        arena.end_call(c.scribble);
+        out.push_str(&format!("op {} {}\n", i, t[0]));
+        if spun {
+            out.push_str("= DIVERGED\n");
+            break;
+        }
+        print_events(out, &w.borrow().ev, full);
+        match res {
+            Ok(Some(Res::Ok(v))) => {
+                if v.is_empty() {
+                    out.push_str("= OK\n")
+                } else {
+                    out.push_str(&format!("= OK {}\n", v))
+                }
+            }
+            Ok(Some(Res::Err)) => out.push_str("= ERR\n"),
+            Ok(None) => out.push_str("= UNSUPPORTED\n"),
+            Err(()) => out.push_str("= PANIC\n"),
+        }
+    }
+    out.push_str("end\n");
 }
